@@ -4,7 +4,7 @@
    Stepwise = TRUE : the tokeniser runs one octet per action (one named action per step kind:
                      vacuity guard for every branch of the tokeniser) -- small bounds.
    Stepwise = FALSE: serialise + tokenise in one action -- larger bounds.                         *)
-EXTENDS ImapSexp, TLC
+EXTENDS ImapSexp, TLC, Json
 CONSTANTS MaxOctets, MaxItems, MaxDepth, MaxLists, Stepwise
 
 Alphabet == {DQUOTE, BSLASH, CR, LF, LBRACE, RBRACE, LPAREN, RPAREN, SP, 78, 73, 76, 120, 200, 49, 91}
@@ -81,4 +81,7 @@ P_lchar == /\ phase = "parse" /\ pos <= Len(stream) /\ PKind(pm, stream[pos]) = 
 PSteps == P_space \/ P_open \/ P_close \/ P_qstart \/ P_lstart \/ P_astart \/ P_aend \/ P_aendclose \/ P_achar \/ P_qesc \/ P_qend \/ P_qchar \/ P_qescaped \/ P_ldigit \/ P_lbrace \/ P_lcr \/ P_llf \/ P_lchar
 Next == AddOctet \/ OpenStr \/ BCloseStr \/ AddNil \/ AddInt \/ OpenList \/ BClose \/ Serialize \/ PSteps \/ PFinish
 Spec == Init /\ [][Next]_vars
+
+\* spec -> code: print every completed structure with the REFERENCE serialisation (the harness feeds it to the real parser)
+EmitSer == phase # "done" \/ PrintT(<<"BEH", ToJson([x |-> toks, out |-> stream])>>)
 =============================================================================
